@@ -452,6 +452,79 @@ def local_imm_names(fn):
     return out
 
 
+def _const_int(d, e, env):
+    """integer value of a small constant expression (literals, file-level consts, loop variables, + - *)"""
+    e = A.strip(e)
+    if e is None:
+        return None
+    v = A.lit_value(e)
+    if v is not None and e.get("k") in ("Lit", "Cast", "Unary"):
+        return int(v)
+    k = e.get("k")
+    if k == "Cast":
+        return _const_int(d, e["e"], env)
+    if k == "Path":
+        n = A.ident(e)
+        if n in env:
+            return env[n]
+        for it in d.get("items", []):
+            if it.get("k") == "Const" and it.get("name") == n and it.get("e") is not None:
+                return _const_int(d, it["e"], {})
+        return None
+    if k == "Binary" and e["op"] in ("+", "-", "*"):
+        l, r = _const_int(d, e["left"], env), _const_int(d, e["right"], env)
+        if l is None or r is None:
+            return None
+        return {"+": l + r, "-": l - r, "*": l * r}[e["op"]]
+    return None
+
+
+def _unroll(d, fn, m, ins):
+    """a dynasm! block inside `for v in A..B { let off = <const expr of v>; dynasm!(..) }` with constant
+    bounds is the same instructions written out once per value, the symbolic offsets evaluated: returns the
+    list of instruction lists, or None when the block is not in such a loop"""
+    import copy
+
+    binders = A.enclosing_binders(fn["body"], m) or []
+    loops = [b for b in binders if b[2].get("k") == "For"]
+    if len(loops) != 1:
+        return None
+    var, _it, node = loops[0]
+    rng = A.strip(node["iter"])
+    while rng.get("k") in ("Cast", "Paren"):
+        rng = A.strip(rng["e"])
+    if rng.get("k") != "Range" or rng.get("closed"):
+        return None
+    lo, hi = _const_int(d, rng.get("start"), {}), _const_int(d, rng.get("end"), {})
+    if lo is None or hi is None or not (0 < hi - lo <= 64):
+        return None
+    out = []
+    for v in range(lo, hi):
+        env = {var: v}
+        for s_ in node["body"].get("stmts", []):
+            if s_.get("k") == "Let" and A.binding_name(s_["pat"]) and s_.get("init") is not None:
+                val = _const_int(d, s_["init"], env)
+                if val is not None:
+                    env[A.binding_name(s_["pat"])] = val
+        ins_v = copy.deepcopy(ins)
+        for x in ins_v:
+            for o in x.ops:
+                if getattr(o, "kind", None) == "mem" and getattr(o, "sym", None):
+                    rest = []
+                    for sname in o.sym:
+                        sign = -1 if sname.startswith("-") else 1
+                        nm = sname.lstrip("+-")
+                        if nm in env:
+                            o.off = (o.off or 0) + sign * env[nm]
+                        else:
+                            rest.append(sname)
+                    o.sym = rest
+                    if not rest:
+                        o.text = "+".join(o.regs) + ("+0x%x" % o.off if o.off else "")
+        out.append(ins_v)
+    return out
+
+
 def load_builders(path, root=None):
     """every fn in the file's impl blocks that contains dynasm! or calls a helper"""
     d = A.load(path, root)
@@ -464,7 +537,12 @@ def load_builders(path, root=None):
         for m in A.find(fn["body"], "Macro"):
             if m.get("name") == "dynasm":
                 head, ins = parse_block(m, b.local_imm)
-                b.blocks.append((m, head, ins))
+                unrolled = _unroll(d, fn, m, ins)
+                if unrolled is None:
+                    b.blocks.append((m, head, ins))
+                else:
+                    for ins_v in unrolled:
+                        b.blocks.append((m, head, ins_v))
         for c in A.find(fn["body"], "MethodCall"):
             if A.ident(A.strip(c["recv"])) == "self" and (c["method"].startswith("build_") or c["method"].startswith("call_fn") or c["method"] in ("load_imm", "ensure_callee_regs_saved")):
                 b.helper_calls.append((c["method"], [A.ident(A.strip(a)) for a in c["args"]], c))
